@@ -203,12 +203,21 @@ def configs(tier):
 def run(tier):
     rep = Report("C15", tier, "model_checking")
     common.pool()
-    cfgs = configs(tier)
-    tasks = [(functools.partial(execute, c), check, b) for c, b in cfgs]
+    cfgs = configs("quick")
+    results = scheddfs.explore_many([(functools.partial(execute, c), check, b) for c, b in cfgs])
+    if tier == "thorough":
+        # the quick tier's configurations are complete; the larger bounds / longer plans of the thorough tier get 1500 s of wall time
+        quick = set(cfgs)
+        extra = [cb for cb in configs("thorough") if cb not in quick]
+        res2 = scheddfs.explore_many([(functools.partial(execute, c), check, b) for c, b in extra], time_cap=1500)
+        for r, (c, b) in zip(res2, extra):
+            r["bound_completed"] = b if not r["capped"] else None
+        cfgs = cfgs + extra
+        results = results + res2
     execs = 0
     outcomes = 0
     maxpts = 0
-    for (c, b), r in zip(cfgs, (scheddfs.explore_many(tasks) if tier != "thorough" else scheddfs.explore_many_capped(tasks, 2, 1500))):
+    for (c, b), r in zip(cfgs, results):
         execs += r["executions"]
         outcomes += len(r["outcomes"])
         maxpts = max(maxpts, r["max_points"])
